@@ -209,6 +209,14 @@ def reduce_(case, ctx):
         case[1] = {"data": np.resize(case[1]["data"], case[0]["data"].shape) - 0.25, "offset": list(case[0]["offset"])}
         ctx.tag("identical_footprint")
     fields = [mk(f) for f in case]
+    if len(case) >= 1 and (int(case[0]["offset"][1]) + 2 * len(case)) % 5 == 0:
+        # the very same Field object listed more than once (two wavefronts sharing a field): it counts each time
+        j = int(abs(case[0]["offset"][0])) % len(case)
+        pos = int(abs(case[0]["offset"][1])) % (len(case) + 1)
+        case = list(case)
+        case.insert(pos, case[j])
+        fields.insert(pos, fields[j if j < pos else j])
+        ctx.tag("same_object_twice")
     snaps = [f.data.copy() for f in fields]
     sets = [fm.coordset(f["data"].shape, f["offset"]) for f in case]
     exp = sum(fm.embed(f["data"], f["offset"]) for f in case)
